@@ -751,7 +751,7 @@ class Saver:
 
                 for chunk in chunks:
                     new_f = self.save(chunk=chunk, chunk_i=chunk_i, executor=executor)
-                    pending = [f for f in pending if not f.done()]
+                    pending = self._raise_failed_futures(pending)
                     if new_f is not None:
                         pending += [new_f]
                     chunk_i += 1
@@ -811,6 +811,15 @@ class Saver:
         self._save_chunk_metadata(chunk_info)
         return future
 
+    @staticmethod
+    def _raise_failed_futures(futures):
+        """Raise the exception of a finished (chunk writing) future that failed, return the list of
+        futures that are still running."""
+        for f in futures:
+            if f.done():
+                f.result()
+        return [f for f in futures if not f.done()]
+
     def close(self, wait_for: typing.Union[list, tuple] = tuple()):
         if self.closed:
             raise RuntimeError(f"{self.md} saver already closed")
@@ -819,6 +828,10 @@ class Saver:
             done, not_done = wait(wait_for, timeout=self.timeout)
             if len(not_done):
                 raise RuntimeError(f"{len(not_done)} futures of {self.md} did notcomplete in time!")
+            if not strax.formatted_exception():
+                # Do not mark the data as complete if writing one of the chunks failed.
+                # (If we are already closing due to an exception, that one is recorded below.)
+                self._raise_failed_futures(done)
 
         self.closed = True
 
